@@ -79,6 +79,33 @@ UTC = datetime.timezone.utc
 ENTITY_VALUES = False
 # UTC offsets in minutes, incl. negative ones with a minutes part and the band between GMT-1 and GMT
 ZONES = [60, -60, 330, 345, -210, -570, -30, -45, 765, -720, 840, -300, 570]
+class DstZone(datetime.tzinfo):
+    """a zone whose offset depends on the date (summer time April-September, or October-March in the south): ONE tzinfo object shared
+    by values on both sides of the change, as zoneinfo / dateutil zones are"""
+    def __init__(self, std, dst, std_min, dst_min, south=False):
+        self.std_name, self.dst_name, self.std_min, self.dst_min, self.south = std, dst, std_min, dst_min, south
+
+    def __getinitargs__(self):
+        return (self.std_name, self.dst_name, self.std_min, self.dst_min, self.south)
+
+    def _summer(self, dt):          # used for date-times only (see gen_value)
+        return dt is not None and ((4 <= dt.month <= 9) != self.south)
+
+    def utcoffset(self, dt):
+        return datetime.timedelta(minutes=self.dst_min if self._summer(dt) else self.std_min)
+
+    def dst(self, dt):
+        return datetime.timedelta(minutes=(self.dst_min - self.std_min) if self._summer(dt) else 0)
+
+    def tzname(self, dt):
+        return self.dst_name if self._summer(dt) else self.std_name
+
+    def __repr__(self):
+        return "DstZone(%s/%s)" % (self.std_name, self.dst_name)
+
+
+DST_ZONES = [DstZone("CET", "CEST", 60, 120), DstZone("EST", "EDT", -300, -240), DstZone("ACST", "ACDT", 570, 630, south=True),
+             DstZone("NST", "NDT", -210, -150)]
 STR_ALPHA = string.ascii_letters + string.digits + " .,;:-_/()#'\"&<>éü€"
 
 
@@ -112,10 +139,11 @@ def gen_value(ctx, conv, rng):
             e = -rng.randint(0, 6)
         return decimal.Decimal((rng.randint(0, 1), tuple(int(c) for c in str(digits)), e))
     if type(conv) is T.DateTime:
-        tz = UTC if rng.random() < 0.5 else datetime.timezone(datetime.timedelta(minutes=rng.choice(ZONES)))
+        r = rng.random()
+        tz = UTC if r < 0.45 else (rng.choice(DST_ZONES) if r < 0.6 else datetime.timezone(datetime.timedelta(minutes=rng.choice(ZONES))))
         return datetime.datetime(rng.randint(1990, 2030), rng.randint(1, 12), rng.randint(1, 28), rng.randint(0, 23), rng.randint(0, 59),
                                  rng.randint(0, 59), rng.choice([0, 0, 123000, 999000]), tzinfo=tz)
-    if type(conv) is T.Time:
+    if type(conv) is T.Time:       # fixed offsets only: a time of day has no date, so a date-dependent zone gives it no offset (zoneinfo returns None)
         tz = UTC if rng.random() < 0.5 else datetime.timezone(datetime.timedelta(minutes=rng.choice(ZONES)))
         return datetime.time(rng.randint(0, 23), rng.randint(0, 59), rng.randint(0, 59), rng.choice([0, 500000]), tzinfo=tz)
     raise ValueError("no generator for %r" % (conv,))
